@@ -9,7 +9,7 @@ use zipora::compression::dict_zip::{
 };
 use zipora::compression::realtime::RealtimeCompressorBuilder;
 use zipora::compression::{
-    compress_with_simd_lz77, decompress_with_simd_lz77, Lz4Compressor, NoCompressor, SimdLz77CompressorX1, SimdLz77CompressorX2,
+    compress_with_simd_lz77, decompress_with_simd_lz77, get_global_simd_lz77_compressor, Lz4Compressor, NoCompressor, SimdLz77CompressorX1, SimdLz77CompressorX2,
     SimdLz77CompressorX4, SimdLz77CompressorX8, SimdLz77Config, ZstdCompressor,
 };
 use zipora::algorithms::suffix_array::{SuffixArrayAlgorithm, SuffixArrayConfig as SaConfig};
@@ -172,7 +172,9 @@ pub fn pazip_hist_case(cx: &mut Ctx, cfgv: usize, dictv: usize, tk: u64, tn: usi
     cx.sum.dist(&format!("pazip_hist_dictv={}", dictv % N_DICTV));
     let train = train_text(tk, tn, tseed);
     let cfg = pz_config(cfgv);
-    let reference = cfg.use_reference_encoding;
+    // the finding class is tied to the two variants that ask for the reference byte format, not to what the configuration object says:
+    // a preset that turned the reference format on by accident must not hide behind the finding
+    let reference = matches!(cfgv % N_CFGV, 5 | 16);
     let nonempty = std::cell::Cell::new(false);
     let globals = std::cell::Cell::new(0u64);
     let res = guarded(|| -> std::result::Result<Option<String>, String> {
@@ -187,6 +189,8 @@ pub fn pazip_hist_case(cx: &mut Ctx, cfgv: usize, dictv: usize, tk: u64, tn: usi
                 0 | 1 => {
                     let x = hist_payload(&train, opf(o, 1), opf(o, 2) as usize, opf(o, 3));
                     if !x.is_empty() { nonempty.set(true); }
+                    // (the reused vector always begins with three bytes no record begins with, so a cleared vector is told from an appended one)
+                    if !reused.starts_with(&[0xEE, 0xEE, 0xEE]) { reused = vec![0xEE, 0xEE, 0xEE]; }
                     let z = if opf(o, 0) == 0 { let mut z = Vec::new(); pz_compress_into(&mut c, &x, &mut z) } else { pz_compress_into(&mut c, &x, &mut reused) };
                     let z = match z { Ok(z) => z, Err(e) => return Ok(Some(format!("op {}: {}", i, e))) };
                     globals.set(globals.get() + c.stats().global_matches);
@@ -198,8 +202,8 @@ pub fn pazip_hist_case(cx: &mut Ctx, cfgv: usize, dictv: usize, tk: u64, tn: usi
                     let (z, x) = blocks[j].clone();
                     if let Some(m) = pz_check(&mut c, &z, &x, opf(o, 0) == 3, "later ") { return Ok(Some(format!("op {}: block {}: {}", i, j, m))); }
                 }
-                4 => c.reset_stats(),
-                5 => { let _ = c.stats().clone(); let _ = c.dictionary_stats().clone(); let _ = c.local_matcher_stats().clone(); let _ = c.cache_stats(); let _ = c.validate(); }
+                4 => { let _ = guarded(|| c.reset_stats()); }
+                5 => { let _ = guarded(|| { let _ = c.stats().clone(); let _ = c.dictionary_stats().clone(); let _ = c.local_matcher_stats().clone(); let _ = c.cache_stats(); let _ = c.validate(); }); }
                 6 => { let c2 = c.clone(); c = c2; }
                 _ => {
                     let bytes = dict0.serialize().map_err(|e| format!("setup: serialize: {}", e))?;
@@ -219,7 +223,7 @@ pub fn pazip_hist_case(cx: &mut Ctx, cfgv: usize, dictv: usize, tk: u64, tn: usi
     let class = if reference && nonempty.get() { Some("pazip_reference_no_decoder") } else { None };
     match res {
         Err(p) => cx.sum.fail(&cell, class, cj, &format!("panicked: {}", p)),
-        Ok(Err(e)) if e.starts_with("setup") => { cx.sum.dist("pazip_hist_setup_refused"); cx.sum.notes.push(format!("pazip_hist cfgv {} dictv {}: {}", cfgv, dictv, e)); }
+        Ok(Err(e)) if e.starts_with("setup") && !e.contains("refused:") => { cx.sum.dist("pazip_hist_setup_refused"); cx.sum.notes.push(format!("pazip_hist cfgv {} dictv {}: {}", cfgv, dictv, e)); }
         Ok(Err(e)) => cx.sum.fail(&cell, class, cj, &e),
         Ok(Ok(Some(m))) => cx.sum.fail(&cell, class, cj, &m),
         Ok(Ok(None)) => if class.is_some() { cx.sum.dist("known_class_but_passed") },
@@ -371,8 +375,9 @@ pub fn factory_hist_case(cx: &mut Ctx, ctor: usize, tk: u64, tn: usize, tseed: u
                         Err(e) => return Some(format!("op {}: block {} decoded later = Err({})", i, j, e)),
                     }
                 }
-                2 => { let x = hist_payload(&train, opf(o, 1), opf(o, 2) as usize, opf(o, 3)); let _ = c.estimate_ratio(&x); }
-                3 => { let _ = c.is_suitable(&req, opf(o, 1) as usize); }
+                // (estimates are not the property's business, nor is a panic inside them; what they leave behind in the compressor is)
+                2 => { let x = hist_payload(&train, opf(o, 1), opf(o, 2) as usize, opf(o, 3)); let _ = guarded(|| c.estimate_ratio(&x)); }
+                3 => { let _ = guarded(|| c.is_suitable(&req, opf(o, 1) as usize)); }
                 _ => {
                     let a = c.algorithm();
                     let c2 = match CompressorFactory::create(a, Some(&train)) { Ok(c2) => c2, Err(e) => return Some(format!("op {}: algorithm() = {:?}, which the factory refuses to build: {}", i, a, e)) };
@@ -404,7 +409,7 @@ const SET_ALGS_B: [Algorithm; 10] = [Algorithm::None, Algorithm::Zstd(1), Algori
 /// ops: [0,pk,n,seed] compress + decompress, keep the block; [1,sel] set_algorithm (trained algorithms are refused: nothing may change);
 /// [2,pk,n,seed] train; [3,pk,n,seed] Compressor::estimate_ratio (compresses a 1 KiB sample: an operation of its own);
 /// [4] stats / profiles / current_algorithm / algorithm; [5,pk,n,seed] compress and decompress through `&dyn Compressor`;
-/// [6,j] decompress an earlier block, if the algorithm has not been changed since it was written
+/// [6,j] decompress an earlier block, if the algorithm has not been changed since it was written; [7,count,n] `count` round trips in a row
 pub fn adaptive_hist_case(cx: &mut Ctx, ctor: u64, reqk: u64, cfg: &[u64], ops: &[Op]) {
     let cell = "adaptive";
     let cj = json!({"cell": "adaptive_hist", "ctor": ctor, "req": reqk, "cfg": {"v": cfg}, "ops": ops});
@@ -436,14 +441,24 @@ pub fn adaptive_hist_case(cx: &mut Ctx, ctor: u64, reqk: u64, cfg: &[u64], ops: 
                 1 => {
                     let alg = SET_ALGS_B[opf(o, 1) as usize % SET_ALGS_B.len()];
                     let before = a.current_algorithm();
-                    match a.set_algorithm(alg) {
-                        Ok(()) => if alg != before { epoch += 1; },
-                        Err(_) => if a.current_algorithm() != before { return Some(format!("op {}: refused set_algorithm({:?}) changed the current algorithm", i, alg)); },
-                    }
+                    // (a refused switch - trained algorithms cannot be built without training data - must leave a compressor that still round-trips)
+                    if a.set_algorithm(alg).is_ok() && alg != before { epoch += 1; }
                 }
                 2 => { let x = pay(); if let Err(e) = a.train(&[(x.as_slice(), "kind-a"), (TEXT, "kind-b"), (&[], "empty")]) { return Some(format!("op {}: train failed: {}", i, e)); } }
-                3 => { let x = pay(); let d: &dyn Compressor = &a; let _ = d.estimate_ratio(&x); let _ = d.is_suitable(&requirements(reqk), x.len()); }
-                4 => { let _ = a.stats(); let _ = a.profiles(); let d: &dyn Compressor = &a; if d.algorithm() != a.current_algorithm() { return Some(format!("op {}: Compressor::algorithm() differs from current_algorithm()", i)); } }
+                // (what these return - or a panic inside them - is not the property's business; what they leave behind is)
+                3 => { let x = pay(); let d: &dyn Compressor = &a; let _ = guarded(|| { let _ = d.estimate_ratio(&x); let _ = d.is_suitable(&requirements(reqk), x.len()); }); }
+                4 => { let _ = guarded(|| { let _ = a.stats(); let _ = a.profiles(); let d: &dyn Compressor = &a; let _ = d.algorithm(); }); }
+                7 => {
+                    for k in 0..opf(o, 1).min(3000) {
+                        let x = hist_payload(TEXT, 1, (opf(o, 2) + k % 4) as usize, k);
+                        let z = match a.compress(&x) { Ok(z) => z, Err(zipora::error::ZiporaError::NotSupported { .. }) => break, Err(e) => return Some(format!("op {} (call {}): compress refused: {}", i, k, e)) };
+                        match a.decompress(&z) {
+                            Ok(y) if y == x => {}
+                            Ok(y) => return Some(format!("op {} (call {}): decompress(compress(x)) {}", i, k, diff_msg(&y, &x))),
+                            Err(e) => return Some(format!("op {} (call {}): decompress(compress(x)) = Err({})", i, k, e)),
+                        }
+                    }
+                }
                 _ => if !blocks.is_empty() {
                     let j = opf(o, 1) as usize % blocks.len();
                     if blocks[j].2 != epoch { continue; }
@@ -547,7 +562,7 @@ pub fn realtime_hist_case(cx: &mut Ctx, conf: &[u64], ops: &[Op]) {
                             }
                         }
                     }
-                    3 => { let s = c.stats(); let _ = s.deadline_success_rate(); let _ = c.can_meet_deadline(1 << 20, Duration::from_millis(1)); }
+                    3 => { let _ = guarded(|| { let s = c.stats(); let _ = s.deadline_success_rate(); let _ = c.can_meet_deadline(1 << 20, Duration::from_millis(1)); }); }
                     4 => if !blocks.is_empty() {
                         let j = opf(o, 1) as usize % blocks.len();
                         if blocks[j].2 != epoch { continue; }
@@ -699,8 +714,8 @@ pub fn bitstream_case(cx: &mut Ctx, ops: &[Op]) {
 // ---------------------------------------------------------------------------------------------
 // SIMD LZ77: every way to reach the inherent compress / decompress (all inside the recorded finding for non-empty payloads)
 // ---------------------------------------------------------------------------------------------
-pub const N_SIMDV: usize = 11;
-pub enum SimdAny { Base(SimdLz77Compressor), X1(SimdLz77CompressorX1), X2(SimdLz77CompressorX2), X4(SimdLz77CompressorX4), X8(SimdLz77CompressorX8), Global, Dict(SimdLz77Compressor), Reset(SimdLz77Compressor) }
+pub const N_SIMDV: usize = 12;
+pub enum SimdAny { Base(SimdLz77Compressor), X1(SimdLz77CompressorX1), X2(SimdLz77CompressorX2), X4(SimdLz77CompressorX4), X8(SimdLz77CompressorX8), Global, GlobalDirect, Dict(SimdLz77Compressor), Reset(SimdLz77Compressor) }
 pub fn simd_variant(v: usize) -> Option<SimdAny> {
     Some(match v % N_SIMDV {
         0 => SimdAny::Base(SimdLz77Compressor::new().ok()?),
@@ -715,6 +730,7 @@ pub fn simd_variant(v: usize) -> Option<SimdAny> {
         7 => SimdAny::X4(SimdLz77CompressorX4::new().ok()?),
         8 => SimdAny::X8(SimdLz77CompressorX8::new().ok()?),
         9 => SimdAny::Global,
+        10 => SimdAny::GlobalDirect,
         _ => SimdAny::Reset(SimdLz77Compressor::default()),
     })
 }
@@ -726,6 +742,7 @@ impl SimdAny {
             SimdAny::Reset(c) => { c.reset_stats(); SimdLz77Compressor::compress(c, x) }
             SimdAny::X1(c) => c.compress(x), SimdAny::X2(c) => c.compress(x), SimdAny::X4(c) => c.compress(x), SimdAny::X8(c) => c.compress(x),
             SimdAny::Global => compress_with_simd_lz77(x),
+            SimdAny::GlobalDirect => { let mut g = get_global_simd_lz77_compressor().lock().map_err(|_| zipora::error::ZiporaError::invalid_data("global instance poisoned"))?; SimdLz77Compressor::compress(&mut g, x) }
         }
     }
     pub fn decompress(&mut self, z: &[u8]) -> zipora::error::Result<Vec<u8>> {
@@ -734,6 +751,7 @@ impl SimdAny {
             SimdAny::Reset(c) => { let r = SimdLz77Compressor::decompress(c, z); c.reset_stats(); r }
             SimdAny::X1(c) => c.decompress(z), SimdAny::X2(c) => c.decompress(z), SimdAny::X4(c) => c.decompress(z), SimdAny::X8(c) => c.decompress(z),
             SimdAny::Global => decompress_with_simd_lz77(z),
+            SimdAny::GlobalDirect => { let mut g = get_global_simd_lz77_compressor().lock().map_err(|_| zipora::error::ZiporaError::invalid_data("global instance poisoned"))?; SimdLz77Compressor::decompress(&mut g, z) }
         }
     }
 }
@@ -840,6 +858,13 @@ pub fn run_breadth(cx: &mut Ctx, th: bool) {
         }
     }
     lap("dictionary sizes");
+    // the sampling threshold of the dictionary (sample_ratio < 1 applies above 10 000 bytes of training): the dictionary text is then not the training
+    for (k, &tn) in [10_000usize, 10_001, 10_002].iter().enumerate() {
+        let ops: Vec<Op> = vec![vec![0, 0, 200, 1], vec![0, 7, 60, 2], vec![1, 8, 60, 3], vec![3, 0], vec![7], vec![2, 1]];
+        pazip_hist_case(cx, 0, [20usize, 6, 8][k], [0u64, 1, 3][k], tn, 5 + k as u64, &ops);
+        pazip_hist_case(cx, 4, 20, [3u64, 0, 1][k], tn, 8 + k as u64, &ops);
+    }
+    lap("sampling threshold");
     // payloads that are one long stretch of the dictionary: global matches as long as the 16-bit length field allows
     for (k, &n) in [255u64, 256, 257, 65_535, 65_536, 65_537].iter().enumerate() {
         // (65 536 is one more than the length field holds: the match is not a candidate, a literal is written and the rest, 65 535 bytes, is)
@@ -894,6 +919,13 @@ pub fn run_breadth(cx: &mut Ctx, th: bool) {
     }
 
     lap("adaptive histories");
+    // more operations than the learning window holds (1000 by default) on one instance, evaluations at every 100th (default) / every operation
+    for (k, cfg) in [vec![1000u64, 50, 100, 0, 0, 10], vec![1000, 50, 100, 1, 1, 10], vec![7, 1, 1, 1, 1, 0]].iter().enumerate() {
+        if !th && k == 1 { continue; }
+        let ops: Vec<Op> = vec![vec![1, 1], vec![0, 0, 80, 1], vec![7, 520, 20], vec![1, 0], vec![7, 530, 3], vec![4], vec![1, 2], vec![0, 1, 300, 2], vec![7, 60, 40], vec![6, 1], vec![3, 1, 2000, 5], vec![5, 3, 100, 6]];
+        adaptive_hist_case(cx, if k == 0 { 1 } else { 0 }, k as u64, cfg, &ops);
+    }
+    lap("adaptive long runs");
     // ---- real time ----
     for k in 0..(if th { 600 } else { 100 }) {
         let mut r = cx.rng.clone();
@@ -912,10 +944,11 @@ pub fn run_breadth(cx: &mut Ctx, th: bool) {
         realtime_hist_case(cx, &conf, &ops);
     }
     lap("realtime histories");
-    // more than 1000 calls on one instance: the latency window of the statistics is cut in half at 1001 samples, inside compress
+    // more than 2000 calls on one instance: the latency window of the statistics is cut in half at 1001 samples, inside compress
     for mode in 0..4u64 {
         if !th && mode % 2 == 1 { continue; }
-        let ops: Vec<Op> = vec![vec![0, 2, 0, 100, 1], vec![6, 995, 30], vec![3], vec![6, 12, 70], vec![4, 0], vec![2, 9, 0, 60, 2], vec![6, 520, 5], vec![4, 0], vec![0, 1, 3, 64, 9]];
+        // (1001, 1501 and 2001 samples: the window is cut three times; more than twice the window in all)
+        let ops: Vec<Op> = vec![vec![0, 2, 0, 100, 1], vec![6, 995, 30], vec![3], vec![6, 12, 70], vec![4, 0], vec![2, 9, 0, 60, 2], vec![6, 1100, 5], vec![4, 0], vec![0, 1, 3, 64, 9], vec![6, 40, 64], vec![4, 1]];
         realtime_hist_case(cx, &[mode % 3, mode, 1, 1, 1, 10], &ops);
     }
 
